@@ -12,7 +12,82 @@ import (
 	. "verifh/lib"
 )
 
+// stripWide removes the "|ver=..ps=.." part the mode-3 child appends (fields the writer assigns by design)
+func stripWide(s string) string {
+	k := strings.Index(s, "|")
+	if k < 0 {
+		return s
+	}
+	rest := ""
+	if j := strings.Index(s[k:], "/"); j >= 0 {
+		rest = s[k+j:]
+	}
+	return s[:k] + rest
+}
+
+// noFilterRun: a server with sub-package filtering OFF (WithHasSubcontract(false)): every sub-package
+// reaches the callbacks and is answered, so incomplete packets, the completing packet and the merged
+// message are all held by callbacks while the writer encodes replies on their headers.  Required: the
+// fields the property lists (id, serial, package total / number, phone, body, raw frame) of every
+// held message never change; what Header.Encode assigns (reply id, platform serial, property word)
+// is rendered too (op sk3) but not required to stay.
+func noFilterRun(c *Ctx) {
+	rng := c.Rng
+	n := 12
+	if !c.Quick() {
+		n = 300
+	}
+	for i := 0; i < n; i++ {
+		tr := RandTransfer(rng, []uint16{0x0200, 0x0704, 0x0801}[rng.Intn(3)], 2+rng.Intn(4), 12)
+		var st []SkStep
+		st = append(st, SkStep{Kind: 'w', Data: tr.Packet(1).Wire()})
+		for _, o := range rng.Perm(len(tr.Bodies) - 1) {
+			if rng.Intn(3) == 0 {
+				hb := FrameSpec{ID: 0x0002, Phone: tr.Phone, Ver2019: tr.Ver2019, Serial: uint16(500 + o)}
+				st = append(st, SkStep{Kind: 'w', Data: hb.Wire()})
+			}
+			st = append(st, SkStep{Kind: 'w', Data: tr.Packet(o + 2).Wire()})
+		}
+		sync := SyncFrame(tr.Phone, tr.Ver2019, 0xfff0)
+		st = append(st, SkStep{Kind: 'y', Data: sync.Wire()})
+		req := "sk3 " + SkStepsString(st)
+		res := SkPlayMode(st, 3)
+		c.Eval(req, true)
+		c.Count("socket/no-filter")
+		viol := func(sig, what, observed, required string) {
+			c.Violate(Violation{Signature: "C09/socket-nofilter-" + sig, What: what, Input: req, Observed: Trunc(observed, 3000), Required: Trunc(required, 3000)})
+		}
+		switch {
+		case res.Crashed:
+			viol("crash", "the server process died", res.Stderr, "the server survives")
+		case res.Timeout != "":
+			viol("timeout", "the conversation did not finish: "+res.Timeout, res.String(), "an answer to the final heartbeat and an orderly close")
+		default:
+			// with the filter off every packet is delivered: 1 event per packet + the merged message + heartbeats
+			if len(res.Reads) < len(tr.Bodies)+2 {
+				viol("delivery", "with sub-package filtering off every packet and the merged message reach OnReadExecutionEvent", res.String(),
+					fmt.Sprintf("at least %d read callbacks", len(tr.Bodies)+2))
+				break
+			}
+			for _, ch := range res.Changed {
+				k := strings.Index(ch, "@")
+				e := strings.Index(ch, "=")
+				if k < 0 || e < k {
+					continue
+				}
+				was, ok := res.At[ch[:k]]
+				if ok && stripWide(ch[e+1:]) != stripWide(was) {
+					viol("unstable", "a listed field of a message held by a callback changed (filter off)", ch+" was "+was,
+						"id, serial, package numbers, phone, body and raw frame of every held message stay as delivered")
+					break
+				}
+			}
+		}
+	}
+}
+
 func socketRun(c *Ctx) {
+	noFilterRun(c)
 	rng := c.Rng
 	n := 150
 	if !c.Quick() {
